@@ -40,6 +40,10 @@ type c12cliCase struct {
 	smallQueues bool
 	// slowOut: every write to standard output blocks that long (a pipe to a slow reader)
 	slowOut time.Duration
+	// realSocks: the real socks5 probe on the virtual TCP network: 10.0.1.0:1080 is a proxy that answers
+	// after 200 ms, 10.0.1.1:1080 accepts and then stays silent, 10.0.1.0:1081 answers 05 00 in two
+	// segments 300 ms apart, 10.0.1.1:1081 refuses
+	realSocks bool
 }
 
 func verifC12CLI(c *drv.Ctx) {
@@ -69,6 +73,7 @@ func verifC12CLI(c *drv.Ctx) {
 		{name: "socks 6 workers, every probe positive, result queues scaled to 1", args: []string{"socks", "-p", "2,4,6,8,10,12", "-w", "6", "10.0.1.0/31"}, kind: "app", workers: 6, bound: 0, tbound: 1, smallQueues: true},
 		{name: "socks 6 workers, every probe positive, result queues scaled to 1, slow stdout", args: []string{"socks", "-p", "2,4,6,8,10,12", "-w", "6", "10.0.1.0/31"}, kind: "app", workers: 6, bound: 0, tbound: 1, smallQueues: true, slowOut: 10 * time.Millisecond, rateper: 10 * time.Millisecond},
 		{name: "tcp-syn with replies, result queues scaled to 1, slow stdout", args: []string{"tcp", "syn", "-p", "80-83", "10.0.1.1/32"}, stdin: cacheA, kind: "packet", reply: cmd("tcp-syn"), bound: 0, tbound: 1, smallQueues: true, slowOut: 10 * time.Millisecond, rateper: 10 * time.Millisecond},
+		{name: "socks, real probe on the virtual network (proxy, silent peer, split reply, refused)", args: []string{"socks", "-p", "1080-1081", "-w", "2", "--timeout", "2s", "10.0.1.0/31"}, kind: "app", workers: 2, bound: 0, tbound: 1, realSocks: true},
 		{name: "docker small", args: []string{"docker", "-p", "2375", "-w", "1", "10.0.1.1/32"}, kind: "app", workers: 1, bound: 1, tbound: 2},
 	}
 	p201, _ := c03manyPorts(201)
@@ -92,6 +97,24 @@ func verifC12CLI(c *drv.Ctx) {
 		sc := &vE2ESpec{Args: append(append([]string{}, k.args...), "--json"), Files: k.files, Stdin: k.stdin, NumCPU: 2, Sigint: true, Horizon: 3000000}
 		if k.vpn {
 			sc.World = c01vpnWorld
+		}
+		if k.realSocks {
+			sc.RealSocks = true
+			world := sc.World
+			sc.World = func(w *zzvenv.World) {
+				if world != nil {
+					world(w)
+				} else {
+					vDefaultWorld(w)
+				}
+				recv3 := zzvenv.VStep{Op: "recv", N: 3}
+				w.Servers = map[string]*zzvenv.VServer{
+					"10.0.1.0:1080": {Script: []zzvenv.VStep{recv3, {Op: "sleep", D: 200 * time.Millisecond}, {Op: "send", Data: []byte{5, 0}}}},
+					"10.0.1.1:1080": {Script: []zzvenv.VStep{recv3}},
+					"10.0.1.0:1081": {ConnectDelay: 50 * time.Millisecond, Script: []zzvenv.VStep{recv3, {Op: "send", Data: []byte{5}}, {Op: "sleep", D: 300 * time.Millisecond}, {Op: "send", Data: []byte{0}}, {Op: "close"}}},
+					"10.0.1.1:1081": {Connect: "refuse"},
+				}
+			}
 		}
 		if k.slowOut > 0 {
 			world, so := sc.World, k.slowOut
